@@ -16,6 +16,9 @@ import (
 
 const modPath = "github.com/bluenviron/gomavlib/v3"
 
+// noInlineGlobal disables the helper see-through (used for the fallback load and by -gen-known).
+var noInlineGlobal bool
+
 // Ctx is the loaded, type-checked, SSA-lowered view of /repo's working tree.
 type Ctx struct {
 	RepoDir string
@@ -27,6 +30,10 @@ type Ctx struct {
 	AllFns  []*ssa.Function          // every source function of the loaded repo packages (incl. anonymous)
 	R       *Report
 	Env     []string
+
+	inlineErr   string
+	InlineNotes []string
+	noInline    bool
 }
 
 func pkgKey(importPath string) string {
@@ -67,8 +74,8 @@ func LoadRepoOverlay(repo string, patterns []string, wantSSA bool, overlay map[s
 	cfg := &packages.Config{
 		Mode: packages.NeedName | packages.NeedFiles | packages.NeedCompiledGoFiles | packages.NeedImports |
 			packages.NeedDeps | packages.NeedTypes | packages.NeedSyntax | packages.NeedTypesInfo | packages.NeedTypesSizes | packages.NeedModule,
-		Dir:   repo,
-		Fset:  c.Fset,
+		Dir:     repo,
+		Fset:    c.Fset,
 		Env:     c.Env,
 		Tests:   false,
 		Overlay: overlay,
@@ -105,18 +112,41 @@ func LoadRepoOverlay(repo string, patterns []string, wantSSA bool, overlay map[s
 		}
 	})
 	sort.Slice(repoPkgs, func(i, j int) bool { return repoPkgs[i].PkgPath < repoPkgs[j].PkgPath })
+	// see-through for helpers that do not exist on the reference tree (inline.go)
+	inlined := false
+	if !noInlineGlobal {
+		changed, notes := inlinePackages(c)
+		c.InlineNotes = notes
+		if changed {
+			if err := rebuildAll(c, wantSSA); err != nil {
+				// fall back to the program as written
+				noInlineGlobal = true
+				c2, err2 := LoadRepoOverlay(repo, patterns, wantSSA, overlay, extraEnv...)
+				noInlineGlobal = false
+				if err2 != nil {
+					return nil, err2
+				}
+				c2.InlineNotes = append(notes, "helper see-through abandoned (rewritten program does not type-check: "+err.Error()+"); analysed as written")
+				return c2, nil
+			}
+			inlined = true
+		}
+	}
 	if !wantSSA {
 		return c, nil
 	}
-	prog, spkgs := ssautil.Packages(repoPkgs, ssa.InstantiateGenerics)
-	for i, sp := range spkgs {
-		if sp == nil {
-			return nil, fmt.Errorf("no SSA package for %s", repoPkgs[i].PkgPath)
+	if !inlined {
+		prog, spkgs := ssautil.Packages(repoPkgs, ssa.InstantiateGenerics)
+		for i, sp := range spkgs {
+			if sp == nil {
+				return nil, fmt.Errorf("no SSA package for %s", repoPkgs[i].PkgPath)
+			}
+			c.SSA[pkgKey(repoPkgs[i].PkgPath)] = sp
 		}
-		c.SSA[pkgKey(repoPkgs[i].PkgPath)] = sp
+		prog.Build()
+		c.Prog = prog
 	}
-	prog.Build()
-	c.Prog = prog
+	prog := c.Prog
 	// index functions
 	for fn := range ssautil.AllFunctions(prog) {
 		if fn.Pkg == nil || fn.Synthetic != "" {
